@@ -3,7 +3,7 @@
    such as a vector stored into itself, Vec capacities that never shrink (the stack vector),
    the allocator — is NOT covered: C12 is partial for process memory. *)
 From Coq Require Import NArith List.
-From MW Require Import Model.Base Model.VmTypes Model.Heap Model.Gc Model.Growth Gen.GcParams
+From MW Require Import Model.Base Model.VmTypes Model.Heap Model.VmBase Model.Gc Model.Growth Gen.GcParams
   Proofs.GcProofs Proofs.SymtabProofs Proofs.GrowthProofs.
 Import ListNotations.
 Open Scope N_scope.
@@ -24,6 +24,14 @@ Print Assumptions C12_after_gc_allocated_eq_reachable.
 Theorem C12_stack_wipe_drops_roots : forall s n x a, In x (repeat VUndef n) -> ~ vref s x a.
 Proof. exact stack_wipe_drops_roots. Qed.
 Print Assumptions C12_stack_wipe_drops_roots.
+
+(* the same on the machine state: Stack::clear leaves the empty table (run.rs:52-55 after a
+   successful evaluation and, with fix F5, on the error path), whose slots up to sp
+   contribute no root *)
+Theorem C12_stack_wipe_drops_roots_vm : forall v x a,
+  stack v = tempty -> In x (stack_to_sp v) -> ~ vref (st v) x a.
+Proof. exact stack_wipe_drops_roots_vm. Qed.
+Print Assumptions C12_stack_wipe_drops_roots_vm.
 
 (* interned garbage symbols are reclaimed with their table entry: the table has an entry
    exactly for the allocated symbol cells (C18 invariant), and it survives sweep *)
